@@ -10,6 +10,7 @@ import traceback
 import numpy as np
 import z3
 
+from vp.world import raised_in_harness as _rih
 from vp import symx, util
 
 B = 64
@@ -153,7 +154,7 @@ def replay_face(ob):
     except Exception as e:  # noqa
         text.append(f"REAL CODE RAISED {type(e).__name__}: {e}")
         text.append(traceback.format_exc(limit=4))
-        return {"confirmed": True, "text": "\n".join(text)}
+        return {"confirmed": not _rih(e), "text": "\n".join(text)}
     if isinstance(out, dict):
         (out,) = out.values()
     xd, yd = b["xd"], b["yd"]
